@@ -38,6 +38,11 @@ def new_interp(prog, loop_bound=4):
             b = v.fields[0]
             if isinstance(b, Opaque) and b.tag == 'boxed':
                 return b.info.ident
+            if isinstance(b, Agg) and b.ty == 'BoxedMessage':
+                # a message that travels in serialized form (send_serialized): identity = the serialized payload
+                for x in b.fields:
+                    if isinstance(x, Enum) and x.variant == 'Some' and x.fields and isinstance(x.fields[0], Opaque) and x.fields[0].tag == 'msg':
+                        return x.fields[0].ident
         raise Unmodelled('channel payload %r' % (value,))
     I.hooks['chan_ident'] = chan_ident
 
@@ -249,12 +254,16 @@ def install_receiver_models(I):
         return outs
 
 
-def build_threads(prog, n_senders, n_msgs, n_drainers, n_stoppers, loop_bound, status0=2, never_closed=True):
-    """returns (trees, meta, interps)"""
+SEND_SERIALIZED = 'ActorProperties::send_serialized'
+
+
+def build_threads(prog, n_senders, n_msgs, n_drainers, n_stoppers, loop_bound, status0=2, never_closed=True, serialized=()):
+    """returns (trees, meta, interps); senders whose index is in `serialized` deliver through send_serialized (the cluster entry point)"""
     trees, meta, interps = [], [], []
     tid = 0
     for i in range(n_senders):
         I = new_interp(prog, loop_bound)
+        send_fn = SEND_SERIALIZED if i in serialized else SEND
         if never_closed and n_stoppers == 0:
             I.hooks['chan_never_closed'] = {'msgq'}
         pv = props_value(prog, I)
@@ -263,11 +272,14 @@ def build_threads(prog, n_senders, n_msgs, n_drainers, n_stoppers, loop_bound, s
         def mkprog(j, pv=pv, idents=idents):
             def program(I, st):
                 cell = st.alloc(pv)
-                return run_calls(I, st, [('send%d' % j, SEND, (lambda s: [Ref(cell, ()), Opaque('msg', ident=idents[j])]))], call_base=j)
+                return run_calls(I, st, [('send%d' % j, send_fn, (lambda s: [Ref(cell, ()), Opaque('msg', ident=idents[j])]))], call_base=j)
             return program
 
-        def summarize(s, kind, results, seg, idents=idents):
-            return {'kind': kind, 'send': classify_send(results[0], idents[seg]) if kind == 'ret' else None}
+        def summarize(s, kind, results, seg, idents=idents, I=I):
+            r = results[0] if kind == 'ret' else None
+            if isinstance(r, Enum) and r.variant == 'Err' and isinstance(r.fields[0], BoxV):
+                r = Enum('Result', 'Err', 1, (I.read(s, r.fields[0].cell, ()),))     # send_serialized boxes its error
+            return {'kind': kind, 'send': classify_send(r, idents[seg]) if kind == 'ret' else None}
         trees.append(conc.unfold(I, 'sender%d' % i, tid, State, [mkprog(j) for j in range(n_msgs)], summarize))
         meta.append({'kind': 'sender', 'idents': idents})
         interps.append(I)
@@ -371,9 +383,9 @@ def oracle(bmc, trees, meta, prop):
     return all_leaf, claims
 
 
-def run_instance(ctx, prop, prog, name, n_senders, n_msgs, n_drainers, n_stoppers, rounds, loop_bound, status0=2, spurious=False):
+def run_instance(ctx, prop, prog, name, n_senders, n_msgs, n_drainers, n_stoppers, rounds, loop_bound, status0=2, spurious=False, serialized=()):
     t0 = time.time()
-    trees, meta, interps = build_threads(prog, n_senders, n_msgs, n_drainers, n_stoppers, loop_bound, status0)
+    trees, meta, interps = build_threads(prog, n_senders, n_msgs, n_drainers, n_stoppers, loop_bound, status0, serialized=serialized)
     for I in interps:
         ctx.absorb(I)
     order = list(range(len(trees)))
@@ -422,7 +434,7 @@ def run_instance(ctx, prop, prog, name, n_senders, n_msgs, n_drainers, n_stopper
 
         def on_cex(model):
             import mailbox_replay
-            return mailbox_replay.replay(prop, n_senders, n_msgs, n_drainers, n_stoppers, status0, sched, bad)
+            return mailbox_replay.replay(prop, n_senders, n_msgs, n_drainers, n_stoppers, status0, sched, bad, serialized=serialized)
         ctx.handle_cex(rec['name'], '%s.%s' % (prop, bad[0].split('.')[-1] if bad else 'claims'), m, on_cex, rec)
         ctx.obligations.append(rec)
     r2, m2 = ctx.solve(base + [z3.Or([bmc.at_leaf_kind(t, 'trunc') for t in range(T)])], timeout_ms=60000, logic='QF_BV')
